@@ -62,6 +62,9 @@ pub struct Recorder {
     /// panics on both sides of an oracle etc.: counted, not reported
     pub tolerated: BTreeMap<String, u64>,
     pub fault_free: bool,
+    /// the run left process-wide state it cannot undo (e.g. coroutines abandoned while
+    /// holding the grid cache lock): this process must not execute further runs
+    pub tainted: bool,
 }
 
 impl Recorder {
@@ -78,6 +81,7 @@ impl Recorder {
             violation: None,
             tolerated: BTreeMap::new(),
             fault_free: true,
+            tainted: false,
         }
     }
     pub fn log(&mut self, line: &str) {
@@ -190,6 +194,10 @@ pub struct WorkerReport {
     pub violations: Vec<ReplayFile>,
     pub violating_runs: u64,
     pub busy_s: f64,
+    /// set when the worker stopped early because a run tainted the process:
+    /// the next run index of this worker's slot
+    #[serde(default)]
+    pub resume_at: Option<u64>,
 }
 
 pub const KEEP_RUN_HASHES: u64 = 4096;
@@ -198,6 +206,7 @@ pub const KEEP_RUN_HASHES: u64 = 4096;
 
 pub static PROGRESS: std::sync::atomic::AtomicU64 = std::sync::atomic::AtomicU64::new(0);
 pub const EXIT_HANG: i32 = 98;
+pub const EXIT_TAINTED: i32 = 97;
 pub const HANG_SECS: u64 = 60;
 pub const CLASS_HANG: &str = "I-live|a simulated run made no progress for 60 s of wall time (unbounded loop in the code under test)";
 pub const CLASS_ABORT: &str = "I-abort|the process executing the simulated run died abnormally (abort, stack overflow, out of memory)";
@@ -337,13 +346,15 @@ pub fn worker<E: Engine>(
             let class = v.class();
             if classes_seen.insert(class.clone()) && classes_seen.len() <= 4 {
                 let original_size = engine.plan_size(&plan);
-                let (min_plan, shrink_executions) = shrink(&mut engine, plan.clone(), &class, 600);
-                let rec2 = execute_guarded(&mut engine, &min_plan, false);
-                let detail = rec2
-                    .violation
-                    .as_ref()
-                    .map(|v| v.detail.clone())
-                    .unwrap_or_else(|| v.detail.clone());
+                // no shrinking in a tainted process: later executions would not be trustworthy
+                let budget = if rec.tainted { 0 } else { 600 };
+                let (min_plan, shrink_executions) = if budget == 0 { (plan.clone(), 0) } else { shrink(&mut engine, plan.clone(), &class, budget) };
+                let detail = if rec.tainted {
+                    v.detail.clone()
+                } else {
+                    let rec2 = execute_guarded(&mut engine, &min_plan, false);
+                    rec2.violation.as_ref().map(|v| v.detail.clone()).unwrap_or_else(|| v.detail.clone())
+                };
                 report.violations.push(ReplayFile {
                     engine: E::NAME.to_string(),
                     property: E::PROPERTY.to_string(),
@@ -360,12 +371,20 @@ pub fn worker<E: Engine>(
             }
         }
         index += stride;
+        if rec.tainted {
+            report.resume_at = Some(index);
+            break;
+        }
     }
     let _ = std::fs::remove_file(&cur_path);
     report.sigs = sigs.into_iter().collect();
     report.busy_s = started.elapsed().as_secs_f64();
     let text = serde_json::to_string(&report).expect("report serialises");
     let _ = writeln!(out, "{}", text);
+    let _ = out.flush();
+    if report.resume_at.is_some() {
+        std::process::exit(EXIT_TAINTED);
+    }
 }
 
 /// Replay a plan in this process. Returns the violation, if any, after printing the log.
